@@ -110,7 +110,7 @@ def _corpus_violations(pid: str, tier: str):
             if r["name"].startswith("part") and clause.split("_")[0] not in CONTROL_PLANE:
                 continue        # NaN-valued objective: only the control-plane clauses are meaningful (see CONTROL_PLANE)
             per.setdefault(clause, []).append(idx)
-        if cont is not None and pid == "C19":
+        if cont is not None and pid == "C19" and "_copied" not in r["name"]:
             for clause, idxs in per.items():
                 if clause.split("_")[0] in ("C03", "C04", "C07", "C08") or clause == "RunCrashed":   # "the loaded tree can be run further"
                     viols.append(Violation("C19", "C19_ContinuationValid",
